@@ -384,7 +384,24 @@ def _run(plan: dict, sim: sched.Sim, ch: sched.Chooser, dep: deploy.Deployment, 
         if len(wonly) < len(history):
             lin2 = linearize.check(wonly, m, env, max_nodes=60000)
             if lin2["ok"] and not lin2["inconclusive"]:
-                kind_of = "torn-read"
+                # torn (a mix that never existed - finding F10 on SQLite) or stale (a consistent
+                # but outdated snapshot served to a call that began after newer writes returned)?
+                reads = [h for h in history if h["task"] != "observer" and h["op"]["op"].startswith("get_") and h["res"] is not None]
+                culprits = []
+                for r in reads:
+                    rest = [h for h in history if h is not r]
+                    lr = linearize.check(rest, m, env, max_nodes=30000)
+                    if lr["ok"] and not lr["inconclusive"]:
+                        culprits.append(r)
+                if not culprits:
+                    culprits = reads
+                stale = [r for r in culprits if linearize.read_matches_some_state(wonly, lin2["order"], m, env, r)]
+                if stale and len(stale) == len(culprits):
+                    kind_of = "stale-read"
+                elif not stale:
+                    kind_of = "torn-read"
+                else:
+                    kind_of = "torn-read" if any(r not in stale for r in culprits) and len(culprits) > 1 else "stale-read"
         if kind_of == "nonlinearizable":
             # two concurrent set_trial_param calls with incompatible distributions for one
             # name both succeeded?  (check-then-insert without a lock in the RDB backend)
